@@ -220,16 +220,19 @@ def run(ctx, canary=False):
     traces = own_traces(ctx, rng, 1200 if thorough else 120)
     if canary:
         traces = corrupt(traces)
-    res = T.validate(ctx, "bp/BPTrace.tla", "CONSTANTS\n  Structs <- TraceStructs\n  EmitRuns = FALSE\nSPECIFICATION TraceSpec\n"
-                     "CONSTRAINT Marker\nPOSTCONDITION Post\nCHECK_DEADLOCK FALSE\n", traces, name="BPTrace", chunk=150, timeout=7200)
-    for t, (ok, reached, ln) in zip(traces, res):
+    tcfg = ("CONSTANTS\n  Structs <- TraceStructs\n  EmitRuns = FALSE\n  Strict = %s\nSPECIFICATION TraceSpec\n"
+            "CONSTRAINT Marker\nPOSTCONDITION Post\nCHECK_DEADLOCK FALSE\n")
+    res = T.validate2(ctx, "bp/BPTrace.tla", tcfg % "TRUE", tcfg % "FALSE", traces, name="BPTrace", chunk=150, timeout=7200)
+    for t, (ok, okl, reached, reachedl, ln) in zip(traces, res):
         if t.get("canary"):
             if ok:
                 raise MachineryError("canary accepted: " + t["canary"])
         elif ok:
             ctx.traces_validated += 1
+        elif okl:
+            ctx.deviation("exact marginals, but the messages are not those of BeliefProp.tla: " + T.describe_reject(t, reached), t.get("info"))
         else:
-            ctx.violation("belief-propagation trace rejected by BPTrace.tla: " + T.describe_reject(t, reached),
+            ctx.violation("belief-propagation trace rejected by BPTrace.tla: " + T.describe_reject(t, reachedl),
                           {"trace": t}, {"kind": "trace"})
     if traces:
         ctx.sample({"H1 trace": {"cliques": traces[0]["nodes"], "first_events": traces[0]["events"][:2]}})
@@ -258,29 +261,30 @@ def replay_one(ctx, s, sid, e, order, dom_order, zs, shift, scale, total, spread
         ctx.violation("belief_propagation raised %r" % ex, info, {"kind": "crash"})
         return
     bad = []
+    dev = []
     sends = [f for k, f in ev if k == "bp.send"][:len(e["hist"])]
     if len(sends) != len(e["hist"]):
-        bad.append("%d messages sent, schedule has %d" % (len(sends), len(e["hist"])))
+        dev.append("%d messages sent, schedule has %d" % (len(sends), len(e["hist"])))
     expo = lambda w: np.array([float(x) ** scale if x else 0.0 for x in w]) if scale == 1.0 else None
     for x, f in zip(e["hist"], sends):
         if fs(f["i"]) != fs(x["i"]) or fs(f["j"]) != fs(x["j"]):
-            bad.append("message order not followed")
+            dev.append("message order not followed")
             break
         if scale != 1.0 or spread:
             continue    # spec tables are for scale 1; huge-magnitude runs are compared on the final marginals only
         got = to_order(f["msg"], f["msg_attrs"], x["at"])
         want = np.array(x["m"], dtype=float)
         if np.any(np.isnan(got)):
-            bad.append("NaN in message %s->%s" % (x["i"], x["j"]))
+            dev.append("NaN in message %s->%s" % (x["i"], x["j"]))
             break
         with np.errstate(all="ignore"):
             g = np.exp(got - (np.max(got) if np.isfinite(np.max(got)) else 0.0))
         if want.sum() == 0:
             if np.any(np.isfinite(got)):
-                bad.append("message %s->%s should be all -inf" % (x["i"], x["j"]))
+                dev.append("message %s->%s should be all -inf" % (x["i"], x["j"]))
                 break
         elif not np.allclose(norm(g), norm(want), rtol=1e-9, atol=1e-12):
-            bad.append("message %s->%s = %s (normalised), spec %s" % (x["i"], x["j"], norm(g).tolist(), norm(want).tolist()))
+            dev.append("message %s->%s = %s (normalised), spec %s" % (x["i"], x["j"], norm(g).tolist(), norm(want).tolist()))
             break
     Z = e["Z"]
     if scale == 1.0:
@@ -317,7 +321,9 @@ def replay_one(ctx, s, sid, e, order, dom_order, zs, shift, scale, total, spread
             bad.append("belief_propagation modified the caller's potentials on %s" % (cl,))
             break
     if bad:
-        ctx.violation("exact inference differs from BeliefProp.tla: " + "; ".join(bad[:3]), info, {"kind": "replay"})
+        ctx.violation("exact inference differs from BeliefProp.tla: " + "; ".join((bad + dev)[:3]), info, {"kind": "replay"})
+    elif dev:
+        ctx.deviation("marginals exact, but intermediate messages differ from BeliefProp.tla: " + dev[0], info)
 
 
 def log_marg(attrs, sizes, pots, zs, scale, proj):
@@ -420,10 +426,11 @@ def corrupt(traces):
                 c["events"][i]["m"][0] += 1
                 c["canary"] = "message cell +1"
                 out.append(c)
-            c = copy.deepcopy(t)
-            c["events"][sends[0]], c["events"][sends[-1]] = c["events"][sends[-1]], c["events"][sends[0]]
-            c["canary"] = "first and last Send swapped"
-            out.append(c)
+            if len(sends) >= 4:       # with >= 3 cliques the last message depends on an earlier one
+                c = copy.deepcopy(t)
+                c["events"][sends[0]], c["events"][sends[-1]] = c["events"][sends[-1]], c["events"][sends[0]]
+                c["canary"] = "first and last Send swapped"
+                out.append(c)
         c = copy.deepcopy(t)
         c["events"][-1]["beliefs"][0]["w"][0] += 1
         c["canary"] = "marginal cell +1"
